@@ -2,6 +2,7 @@
 package main
 
 import (
+	"sort"
 	"fmt"
 	"go/ast"
 	"go/constant"
@@ -29,6 +30,10 @@ type Obligation struct {
 	Trivial bool
 	Cover  bool // a reachability/vacuity query: expected SAT
 	UseLemmas []string
+	// rendered query (see isolate.go)
+	built   bool
+	q, qAbs string
+	gv      []*Term
 }
 
 type Verifier struct {
@@ -56,6 +61,7 @@ func newVerifier(p *Program, lib *SpecLib) *Verifier {
 	theV = v
 	v.scanFieldAddrs()
 	v.scanGlobals()
+	v.prescanKinds()
 	return v
 }
 
@@ -377,6 +383,8 @@ type retEdge struct {
 	st   *State
 	nf   int
 	ord  int
+	env  map[ssa.Value]*Val // SSA values at the return (for $ret_<callee>#k in ensures)
+	blk  *ssa.BasicBlock
 }
 
 type Frame struct {
@@ -404,6 +412,7 @@ type Frame struct {
 	parent    *Frame
 	inlineSet map[string]bool
 	loopMods  []loopMod
+	writeKinds []string // heap kinds of the write being checked (for "any" frame targets)
 }
 
 type loopMod struct {
@@ -476,6 +485,20 @@ func (fr *Frame) oblig(in ssa.Instruction, kind string, goal *Term, desc string)
 		return
 	}
 	name := fr.siteName(in, kind)
+	if fr.u.contract != nil {
+		base := name
+		if i := strings.LastIndex(base, "#"); i >= 0 {
+			base = base[i+1:]
+		}
+		if j := strings.Index(base, "@"); j >= 0 {
+			base = base[:j]
+		}
+		if fr.u.contract.Skip[base] {
+			fr.u.note("skipped obligation " + name + " (assumed, see contract)")
+			fr.assume(goal)
+			return
+		}
+	}
 	pos := "-"
 	if in != nil {
 		pos = fr.u.v.prog.pos(in.Pos())
@@ -495,6 +518,20 @@ func (u *Unit) addObl(name, kind string, guard, goal *Term, pos, desc string) {
 	}
 	g := Implies(guard, goal)
 	o := &Obligation{Name: name, Kind: kind, Fn: u.name, Hyps: append([]*Term{}, u.facts...), Goal: g, Pos: pos, Desc: desc, Inputs: u.inputs, Unit: u, Opaque: u.opaque, Fuel: u.fuel}
+	if u.contract != nil {
+		for suf, fs := range u.contract.RevealIn {
+			if strings.HasSuffix(name, "#"+suf) {
+				op := map[string]bool{}
+				for k, v := range u.opaque {
+					op[k] = v
+				}
+				for _, f := range fs {
+					delete(op, f)
+				}
+				o.Opaque = op
+			}
+		}
+	}
 	if g == True {
 		o.Trivial = true
 	}
@@ -697,7 +734,19 @@ func (fr *Frame) contractEnv(params []*Val, results []*Val, st, old *State) *Env
 		}
 	}
 	fn := fr.fn
-	env.resolve = func(name string, cur *Env) *CV { return fr.u.v.resolveGlobalName(fn, name, cur) }
+	entry := fr.entry
+	env.resolve = func(name string, cur *Env) *CV {
+		// $calls_<callee>: calls of <callee> executed by this function so far
+		if strings.HasPrefix(name, "$calls_") {
+			id := IntLit(callsID(name[len("$calls_"):]))
+			now := cur.st.loadCell(callsKind, IntLit(0), id)
+			if entry == nil {
+				return cvInt(IntLit(0))
+			}
+			return cvInt(Sub(now, entry.loadCell(callsKind, IntLit(0), id)))
+		}
+		return fr.u.v.resolveGlobalName(fn, name, cur)
+	}
 	return env
 }
 
@@ -1062,7 +1111,34 @@ func (fr *Frame) execCutLoop(l *Loop, ls *LoopSpec, entry []*Edge) {
 		st.Next, f = newNext(nextEntry)
 		u.facts = append(u.facts, f)
 	}
+	// call counters: unknown after any number of iterations (invariants may pin them)
+	if fr.parent == nil {
+		var ids []int64
+		seenID := map[int64]bool{}
+		for _, b := range fr.fn.Blocks { // block order: deterministic
+			if !l.Blocks[b] {
+				continue
+			}
+			for _, in := range b.Instrs {
+				if cl, ok := in.(*ssa.Call); ok {
+					if n := calleeDisplayName(&cl.Call); n != "" && !seenID[callsID(n)] {
+						seenID[callsID(n)] = true
+						ids = append(ids, callsID(n))
+					}
+				}
+			}
+		}
+		for _, id := range ids {
+			st.storeCell(callsKind, IntLit(0), IntLit(id), Fresh("calls", IntS))
+		}
+	}
+	for kind := range w.full {
+		st.H[kind] = Fresh("H!"+kind, heapSort(kind))
+	}
 	for kind := range w.kinds {
+		if w.full[kind] {
+			continue
+		}
 		if w.unknown {
 			// everything of this kind may have changed
 			st.H[kind] = Fresh("H!"+kind, heapSort(kind))
@@ -1189,6 +1265,75 @@ func (fr *Frame) loopEnv(l *Loop, phis []*ssa.Phi, phiVals map[*ssa.Phi]*Val, st
 // resolveLocal finds the SSA value bound to a source-level local name that is
 // available at block `at` (parameters are handled by the caller).
 func (fr *Frame) resolveLocal(name string, at *ssa.BasicBlock, env map[ssa.Value]*Val, st *State) *CV {
+	// $ret_<callee>#<k> / $ret<N>_<callee>#<k>: result (component N) of the k-th static call of <callee>, once executed on this path
+	if strings.HasPrefix(name, "$ret") && strings.Contains(name, "_") {
+		us := strings.Index(name, "_")
+		comp := -1
+		if us > 4 {
+			fmt.Sscanf(name[4:us], "%d", &comp)
+		}
+		rest := name[us+1:]
+		k := 1
+		if h := strings.Index(rest, "#"); h >= 0 {
+			fmt.Sscanf(rest[h+1:], "%d", &k)
+			rest = rest[:h]
+		}
+		ord := 0
+		for _, b := range fr.fn.Blocks {
+			for _, in := range b.Instrs {
+				cl, ok := in.(*ssa.Call)
+				if !ok {
+					continue
+				}
+				nm := ""
+				if bb, ok := cl.Call.Value.(*ssa.Builtin); ok {
+					nm = bb.Name()
+				} else if sc := cl.Call.StaticCallee(); sc != nil {
+					nm = sc.Name()
+				} else if cl.Call.IsInvoke() {
+					nm = cl.Call.Method.Name()
+				}
+				if nm != rest {
+					continue
+				}
+				ord++
+				if ord == k {
+					v, ok := env[cl]
+					if !ok {
+						// not executed on the paths leading here: an arbitrary value (clauses must guard it)
+						v = freshVal(cl.Type(), "notcalled")
+					}
+					if comp >= 0 {
+						if v.K != VTuple || comp >= len(v.El) {
+							return nil
+						}
+						return cvOfVal(canonVal(v.El[comp]))
+					}
+					if v.K == VTuple {
+						return nil
+					}
+					return cvOfVal(canonVal(v))
+				}
+			}
+		}
+		return nil
+	}
+	// $i<k>: completed iterations of enclosing range loop k (visible inside its body, e.g. in inner loops and call-site asserts)
+	if strings.HasPrefix(name, "$i") && len(name) > 2 {
+		var k int
+		if _, err := fmt.Sscanf(name[2:], "%d", &k); err == nil {
+			if l := fr.fi.ByOrd[k]; l != nil && (l.Blocks[at] || l.Head == at) {
+				for _, in := range l.Head.Instrs {
+					if p, ok := in.(*ssa.Phi); ok && p.Comment == "rangeindex" {
+						if v, ok := env[p]; ok {
+							return cvInt(Add(canonVal(v).S, IntLit(1)))
+						}
+					}
+				}
+			}
+		}
+		return nil
+	}
 	want := name
 	nth := 0
 	if i := strings.Index(name, "#"); i >= 0 {
@@ -1266,6 +1411,7 @@ type loopWriteInfo struct {
 	refs    []*Term
 	unknown bool
 	allocs  bool
+	full    map[string]bool // kinds havoced entirely ("any T.f" frame targets of callees)
 }
 
 // loopWrites: syntactic over-approximation of what the loop body may write.
@@ -1433,6 +1579,15 @@ func (fr *Frame) callWrites(x *ssa.Call, l *Loop, w *loopWriteInfo, root func(ss
 		}
 		// map modifies targets to argument roots
 		for _, m := range c.Modifies {
+			if m.Any != "" {
+				if w.full == nil {
+					w.full = map[string]bool{}
+				}
+				for _, k := range anyFieldKinds(m.Any) {
+					w.full[k] = true
+				}
+				continue
+			}
 			pn, kinds := modifiesRootParam(callee, m)
 			for _, k := range kinds {
 				w.kinds[k] = true
@@ -1578,6 +1733,9 @@ func (fr *Frame) scanCalleeWrites(callee *ssa.Function, args []ssa.Value, l *Loo
 // modifiesRootParam: the parameter a modifies-target is rooted at, and the heap kinds it covers
 // (computed from the static types along the access path).
 func modifiesRootParam(fn *ssa.Function, m Clause) (string, []string) {
+	if m.Any != "" {
+		return "", anyFieldKinds(m.Any)
+	}
 	var rootName string
 	var typeOf func(e Expr) types.Type
 	typeOf = func(e Expr) types.Type {
@@ -1641,6 +1799,9 @@ func modifiesRootParam(fn *ssa.Function, m Clause) (string, []string) {
 		case "$obj":
 			if p, ok := bt.Underlying().(*types.Pointer); ok {
 				return cellKinds(p.Elem())
+			}
+			if _, ok := bt.Underlying().(*types.Map); ok {
+				return []string{"int"} // the ghost entry count
 			}
 		default:
 			nt := bt
@@ -1829,6 +1990,40 @@ func (fr *Frame) finish() {
 			continue
 		}
 		env := fr.contractEnv(fr.params, r.vals, r.st, fr.entry)
+		if r.env != nil {
+			base := env.resolve
+			renv, rblk := r.env, r.blk
+			env.resolve = func(name string, cur *Env) *CV {
+				if strings.HasPrefix(name, "$ret") && strings.Contains(name, "_") {
+					if v := fr.resolveLocal(name, rblk, renv, cur.st); v != nil {
+						return v
+					}
+				}
+				// $loc_<name>: value of a local variable at this return
+				if strings.HasPrefix(name, "$loc_") {
+					ln := name[len("$loc_"):]
+					if v := fr.resolveLocal(ln, rblk, renv, cur.st); v != nil {
+						return v
+					}
+					// not yet defined on the way to this return: an arbitrary value of its type (the clause must guard it)
+					for _, b := range fr.fn.Blocks {
+						for _, in := range b.Instrs {
+							switch d := in.(type) {
+							case *ssa.DebugRef:
+								if id, ok := d.Expr.(*ast.Ident); ok && id.Name == ln && !d.IsAddr {
+									return cvOfVal(freshVal(d.X.Type(), "undef!"+ln))
+								}
+							case *ssa.Phi:
+								if d.Comment == ln {
+									return cvOfVal(freshVal(d.Type(), "undef!"+ln))
+								}
+							}
+						}
+					}
+				}
+				return base(name, cur)
+			}
+		}
 		for k, en := range c.Ensures {
 			if strings.Contains(en.Src, "unique(result") && i == 0 {
 				for _, b := range fr.fn.Blocks {
@@ -2020,10 +2215,52 @@ func (v *Verifier) addGlobalFacts(u *Unit, fn *ssa.Function, st *State) {
 		}
 		t, err := env.evalBool(gf.C.E)
 		if err != nil {
-			u.errs = append(u.errs, fmt.Sprintf("%s: globalfact %s: %v", gf.C.Where, gf.C.Src, err))
+			// a fact that no longer evaluates is simply not assumed; functions of its own package report it
+			if fn.Pkg == pkg || (fn.Parent() != nil && fn.Parent().Pkg == pkg) {
+				u.errs = append(u.errs, fmt.Sprintf("%s: globalfact %s: %v", gf.C.Where, gf.C.Src, err))
+			}
 			continue
 		}
 		u.facts = append(u.facts, t)
 		u.assumed["assumed initial value of package variables ("+gf.C.Where+"): "+gf.C.Src] = true
+	}
+}
+
+// prescanKinds: every heap kind the repository's code can touch is known before
+// any function is translated, so that "unknown writes" (havoc of all kinds) does
+// not depend on which types happen to have been met so far.
+func (v *Verifier) prescanKinds() {
+	mark := func(t types.Type) {
+		defer func() { recover() }()
+		cellKinds(t)
+		if p, ok := t.Underlying().(*types.Pointer); ok {
+			cellKinds(p.Elem())
+		}
+		if s, ok := t.Underlying().(*types.Slice); ok {
+			cellKinds(s.Elem())
+		}
+	}
+	var names []string
+	for n := range v.prog.byName {
+		names = append(names, n)
+	}
+	sort.Strings(names)
+	for _, n := range names {
+		fn := v.prog.byName[n]
+		if !v.prog.inRepo(fn) {
+			continue
+		}
+		for _, p := range fn.Params {
+			mark(p.Type())
+		}
+		for _, b := range fn.Blocks {
+			for _, in := range b.Instrs {
+				if val, ok := in.(ssa.Value); ok && val.Type() != nil {
+					if _, isTuple := val.Type().(*types.Tuple); !isTuple {
+						mark(val.Type())
+					}
+				}
+			}
+		}
 	}
 }
